@@ -271,7 +271,7 @@ Fixpoint normalize (l : loc) (len : Z) : out loc :=
   | Between p => p' <- gomod p len ;; Ok (Between p')
   | Point p => p' <- gomod p len ;; Ok (Point p')
   | Ranged s e p5 p3 => ranged_normalize s e p5 p3 len
-  | Ambiguous s e => s' <- gomod s len ;; e' <- gomod e len ;; Ok (Ambiguous s' e')
+  | Ambiguous s e => s' <- gomod s len ;; e1 <- gomod (e - 1) len ;; Ok (Ambiguous s' (e1 + 1))
   | Joined ls => ls' <- omapM (fun x => normalize x len) ls ;; join ls'
   | Ordered ls => ls' <- omapM (fun x => normalize x len) ls ;; order ls'
   | Complemented x => x' <- normalize x len ;; Ok (Complemented x')
